@@ -246,7 +246,7 @@ def gen_C05(rng, tier):
         # salt with falsy values
         p = derive_path(rng, d, CHILD + ('rec', 'pred', 'parent'), maxextra=1, pred_depth=1)
         tr = rng.random() < 0.15
-        dv = rng.choice([1, 'dflt', None, 0, [], {}])
+        dv = rng.choice([1, 'dflt', None, 0, [], {}, '', False, 0.0])
         cmds = []
         src = 'doc'
         if rng.random() < 0.4:
